@@ -2,6 +2,7 @@ import DaskModel.DriverLib
 import DaskModel.Model.NormalForm
 import DaskModel.Model.NormalFormRec
 import DaskModel.Model.NormalFormPandas
+import DaskModel.Model.NormalFormPandasX
 import DaskModel.Model.TaskNode
 import DaskModel.Model.Repack
 import DaskModel.Model.GraphMerge
@@ -84,6 +85,53 @@ def decPObj : SExp → Option PObj
 def hPTokPre : Handler := handler fun args =>
   match args with
   | [o] => do pure (.str (ptokPre (← decPObj o)))
+  | _ => none
+
+/-! extended pandas universe (Model/NormalFormPandasX.lean) -/
+
+/-- `(m d)` one cell of a nullable array: mask bit and stored (interned) element -/
+def decCell : SExp → Option (Bool × Nat)
+  | .list [m, d] => do pure ((← m.toBool?), (← d.toNat?))
+  | _ => none
+
+mutual
+/-- `(np v)` `(ea v "dtypename")` `(masked "npdtype" ((m d)…) zero "dtypename")` `(interval left right "closed")`
+    `(cat codes categories ordered)` -/
+partial def decXVals : SExp → Option XVals
+  | .list [.sym "np", v] => do pure (.np (← decVal v))
+  | .list [.sym "ea", v, .str dn] => do pure (.ea (← decVal v) dn)
+  | .list [.sym "masked", .str dt, .list cells, z, .str dn] => do pure (.masked dt (← cells.mapM decCell) (← z.toNat?) dn)
+  | .list [.sym "interval", l, r, .str closed] => do pure (.interval (← decXIdx l) (← decXIdx r) closed)
+  | .list [.sym "cat", codes, cats, o] => do pure (.cat (← decVal codes) (← decXIdx cats) (← o.toBool?))
+  | _ => none
+/-- `(prange …)` `(pplain "cls" name vals)` `(pmulti name (levels…) (codes…))` -/
+partial def decXIdx : SExp → Option XIndex
+  | .list [.sym "prange", .str cls, .int a, .int b, .int c, .str dt, name] => do pure (.range cls a b c dt (← decVal name))
+  | .list [.sym "pplain", .str cls, name, values] => do pure (.plain cls (← decVal name) (← decXVals values))
+  | .list [.sym "pmulti", name, .list levels, .list codes] => do
+    pure (.multi (← decVal name) (← levels.mapM decXIdx) (← codes.mapM decVal))
+  | _ => none
+end
+
+/-- `(pindex idx)` `(pvals vals)` `(pseries name "dtype" vals idx)` `(pframe (vals…) columns index)` `(pscalar "repr")` -/
+def decXObj : SExp → Option XObj
+  | .list [.sym "pindex", i] => do pure (.index (← decXIdx i))
+  | .list [.sym "pvals", v] => do pure (.vals (← decXVals v))
+  | .list [.sym "pseries", name, .str dt, values, i] => do pure (.series (← decVal name) dt (← decXVals values) (← decXIdx i))
+  | .list [.sym "pframe", .list cols, c, i] => do pure (.frame (← cols.mapM decXVals) (← decXIdx c) (← decXIdx i))
+  | .list [.sym "pscalar", .str r] => some (.scalar r)
+  | _ => none
+
+/-- `(xtokpre obj)` ↦ the string fed to md5 by `tokenize(obj)` for a pandas object of the extended universe -/
+def hXTokPre : Handler := handler fun args =>
+  match args with
+  | [o] => do pure (.str (xtokPre (← decXObj o)))
+  | _ => none
+
+/-- `(scls "repr")` ↦ the class of a pandas scalar as far as its printed form tells -/
+def hSCls : Handler := handler fun args =>
+  match args with
+  | [.str r] => some (.str (sclsOf r).name)
   | _ => none
 
 /-- possibly recursive values: `(rval V) (back n) (rlist r…) (rtuple r…) (rdict (V r)…)` -/
@@ -475,7 +523,7 @@ def hGetScheduler : Handler := handler fun args =>
   | _ => none
 
 def table : List (String × Handler) :=
-  [("pickleloop", hPickleLoop), ("ptokpre", hPTokPre), ("dunpack", hDUnpack), ("dcall", hDCall), ("fusedparts", hFusedParts), ("tokprerec", hTokPreRec), ("getscheduler", hGetScheduler), ("delayedrun", hDelayedRun), ("mergeeval", hMergeEval), ("unpack", hUnpack), ("unpacktop", hUnpackTop), ("tune", hTune),
+  [("pickleloop", hPickleLoop), ("ptokpre", hPTokPre), ("xtokpre", hXTokPre), ("scls", hSCls), ("dunpack", hDUnpack), ("dcall", hDCall), ("fusedparts", hFusedParts), ("tokprerec", hTokPreRec), ("getscheduler", hGetScheduler), ("delayedrun", hDelayedRun), ("mergeeval", hMergeEval), ("unpack", hUnpack), ("unpacktop", hUnpackTop), ("tune", hTune),
    ("nodepre", hNodePre), ("nodeclass", hNodeClass), ("nodeeval", hNodeEval),
    ("tokpre", hTokPre), ("tokprekw", hTokPreKw), ("pyrepr", hPyRepr), ("pystr", hPyStr), ("logical", hLogical)]
 
